@@ -39,7 +39,7 @@ _DISK_ASSUME = ["TLC and the community modules are correct",
                 "process-crash model: completed system calls persist, each is atomic",
                 "power-loss model: whole un-synced operations are lost / reordered, the last may be torn at half; a new file's directory entry is durable once the file is fsynced (ext4-like); renames need a directory fsync",
                 "the harness projection and payload registry (as in the core engine)"]
-for _p in ("C02", "C03", "C04", "C22"):
+for _p in ("C02", "C03", "C04", "C20", "C22"):
     CHECKS[_p] = ("eng_disk", "model_checking", _DISK_ASSUME)
 
 
